@@ -126,7 +126,7 @@ def check_graph(order, fields, present, use_names=False, wrap=None):
         return "result %r != least fixpoint %r" % (out, resolved), (schema, doc, cfg)
     got = collections.Counter(e.document_path[-1] for e in errs if e.code == 0x64)
     if any(e.code != 0x64 for e in errs) or got != collections.Counter(list(failed) + list(circular)):
-        return "default-setting errors for %r, expected for failed %r + circular %r" % (sorted(got.elements()), sorted(failed), sorted(circular)), (schema, doc, cfg)
+        return "default-setting errors for %r, expected for failed %r + circular %r" % (sorted(got.elements(), key=repr), sorted(failed, key=repr), sorted(circular, key=repr)), (schema, doc, cfg)
     for e in errs:
         f = e.document_path[-1]
         circ = 'Circular' in str(e.info[0])
@@ -161,6 +161,8 @@ def run(ctx):
     def one(order, fields, present, tag):
         nonlocal cases
         wrap = rng.choice([None] * 10 + ['dict', 'list', 'values', 'items', 'unknown'])
+        if any(isinstance(f, tuple) for f in fields):
+            wrap = None          # (a tuple is a legal field name; as a crumb of a child validator it is read as a path: outside what is checked here)
         d, sd = check_graph(order, fields, present, use_names=rng.random() < 0.3, wrap=wrap)
         cases += 1
         dist[tag] += 1
@@ -215,7 +217,7 @@ def run(ctx):
             rng.shuffle(order)
             one(tuple(order), fields, pres, "random_%d" % nf)
     # field names that are integers (hash(-1) == hash(-2) in CPython: the seen-set must hold the pending tuples, not their hashes)
-    pool_names = [-1, -2, 0, 1, 2, 'a', -3]
+    pool_names = [-1, -2, 0, 1, 2, 'a', -3, ('k', 1), ('k', 2)]
     for _ in range(6000 if thorough else 900 * ctx.get('scale', 1)):
         names = rng.sample(pool_names, rng.choice([2, 3, 3, 4]))
         fields = {}
